@@ -68,7 +68,9 @@ class Part:
         require=None,
         shards=None,
         shrink_budget_s=60.0,
+        case_timeout_s=20.0,
     ):
+        self.case_timeout_s = case_timeout_s
         self.name = name
         self.run = run
         self.strategy = strategy
@@ -214,14 +216,49 @@ def last_frame_in_dns(exc):
     return bool(last) and "/dns/" in last and "/vlib/" not in last
 
 
+class _CaseTimeout(BaseException):
+    pass
+
+
+def _on_alarm(signum, frame):
+    raise _CaseTimeout()
+
+
+def _run_with_timer(part, case, seconds):
+    import signal
+
+    old = signal.signal(signal.SIGALRM, _on_alarm)
+    signal.setitimer(signal.ITIMER_REAL, seconds)
+    try:
+        return part.run(case)
+    finally:
+        signal.setitimer(signal.ITIMER_REAL, 0)
+        signal.signal(signal.SIGALRM, old)
+
+
 def call_oracle(part, case):
     """Run the oracle; an exception that escapes *from inside the dns package* where the
     oracle did not expect one is a crash violation; one raised in harness code is a
-    harness error."""
+    harness error.  A case that does not finish within part.case_timeout_s is re-run once
+    with four times the allowance; only if that also fails to finish is it reported as a
+    hang (the property quantifies over termination; inputs are tiny, the allowance is
+    seconds, so this is not a performance judgement)."""
     try:
-        return part.run(case)
+        try:
+            return _run_with_timer(part, case, part.case_timeout_s)
+        except _CaseTimeout:
+            try:
+                return _run_with_timer(part, case, 4 * part.case_timeout_s)
+            except _CaseTimeout:
+                raise Violation(
+                    "hang",
+                    f"case did not terminate within {4 * part.case_timeout_s:.0f}s",
+                    "timeout",
+                )
     except Violation:
         raise
+    except MemoryError as e:
+        raise Violation("crash", "MemoryError (runaway allocation)", exc_key(e))
     except RecursionError as e:
         raise Violation("crash", f"unexpected RecursionError: {e}", exc_key(e))
     except Exception as e:  # noqa
@@ -261,6 +298,13 @@ def shard_worker(args):
 
 
 def _shard_worker(prop_id, part_name, tier, seed, idx, nshards, budget_s):
+    import resource
+
+    try:
+        lim = int(os.environ.get("VERIF_RLIMIT_AS_GB", "6")) << 30
+        resource.setrlimit(resource.RLIMIT_AS, (lim, lim))
+    except Exception:
+        pass
     mod = load_prop(prop_id)
     part = [p for p in mod.parts(tier) if p.name == part_name][0]
     known = load_known(prop_id)
